@@ -2,6 +2,7 @@ import SF.Lemmas.SuperSmoother
 import SF.Lemmas.Lagf
 import SF.Lemmas.Roof
 import SF.Lemmas.LagRsi
+import SF.Lemmas.Flex
 import SF.Lemmas.Real
 import Mathlib.Analysis.Real.Pi.Bounds
 /-
@@ -27,6 +28,18 @@ started at the first value, output (L0 + 2L1 + 2L2 + L3)/6 — for every γ and 
 `len − 1` / `len − 2` indexing are proved equal to plain delays) -/
 theorem laguerreFilter_eq (g : α) (xs : List α) :
     (lagfCore (α := α) g).outAfter xs = .ok (Spec.laguerreFilter g xs) := Lagf.outAfter_eq g xs
+
+/-- **TrendFlex equals the batch re-evaluation** (N ≥ 3, the least window that holds two previous filter values): the
+flex smoother a1 = exp(−8.88442402435/N), b1 = 2·a1·cos(4.44221201218/N) started with x(−1) = x(0); the mean over N of the
+deviations of the newest filter value from the last min(t+1, N) filter values; divided by the root of its 0.04/0.96
+leaky mean square (0 while that is 0) -/
+theorem trendFlex_eq (N : Nat) (hN : 3 ≤ N) (xs : List α) :
+    (tflexCore (α := α) N).outAfter xs = .ok (Spec.trendFlex N xs) := Flex.trendFlex_eq N hN xs
+
+/-- **ReFlex equals the batch re-evaluation** (N ≥ 3): as TrendFlex with the deviations taken from the line through the
+newest and the oldest filter value of the window (slope correction), the previous output being held while the mean square is 0 -/
+theorem reFlex_eq (N : Nat) (hN : 3 ≤ N) (xs : List α) :
+    (rflexCore (α := α) N).outAfter xs = .ok (Spec.reFlex N xs) := ReFlex.reFlex_eq N hN xs
 
 /-- **LaguerreRSI equals the batch re-evaluation**: gamma = 2/(N+1); the first two values only fill the zero initial
 state; then the four-stage ladder from zeros and CU/(CU+CD) over the three adjacent stage pairs, the previous value being
